@@ -8,7 +8,11 @@ def funcs : List (String × String) := [
   ("internal/smtpconn/pool/pool.go:P.Close", "a9395882b2af5e77"),
   ("internal/smtpconn/pool/pool.go:P.Get", "a874f6e08189d7f8"),
   ("internal/smtpconn/pool/pool.go:P.Return", "f7126ee7263bb843"),
-  ("internal/smtpconn/pool/pool.go:P.cleanUpTick", "8a5ccd189d4e7d8a")
+  ("internal/smtpconn/pool/pool.go:P.cleanUpTick", "8a5ccd189d4e7d8a"),
+  ("internal/smtpconn/pool/pool.go:type Config", "f8c866989314a2fb"),
+  ("internal/smtpconn/pool/pool.go:type Conn", "c18ce1995d22cd78"),
+  ("internal/smtpconn/pool/pool.go:type P", "cdfc8bb966adb55c"),
+  ("internal/smtpconn/pool/pool.go:type slot", "f5771951da2f38b9")
 ]
 
 end MaddyVerif.Expect.FuncSkelC19
